@@ -67,6 +67,15 @@ func (t *tr) lvalue(e ast.Expr) (lval, bool) {
 	case *ast.SelectorExpr:
 		id, ok := x.X.(*ast.Ident)
 		if ok {
+			if bty, _ := t.lookup(id.Name); isStruct(bty) {
+				v := t.selector(x)
+				if v.ty == tBad {
+					return lval{}, false
+				}
+				return lval{read: v.code, ty: v.ty, key: exprString(x), write: func(c string) []string {
+					return t.assignTo(x, val{code: c, ty: v.ty}, false)
+				}}, true
+			}
 			if bty, _ := t.lookup(id.Name); bty == tMsg {
 				v := t.selector(x)
 				if v.ty == tBad {
@@ -264,6 +273,9 @@ func containsReturn(list []ast.Stmt) bool {
 		switch x := n.(type) {
 		case *ast.IfStmt:
 			if _, ok := isTry(x); ok {
+				return false
+			}
+			if _, _, ok := tryPattern(x); ok {
 				return false
 			}
 		case *ast.ReturnStmt:
